@@ -145,6 +145,7 @@ def main(argv=None):
 
     # anchored line coverage
     anchored = {}
+    anchored_missed = {}
     anchors = getattr(mod, 'ANCHORS', None)
     if anchors:
         from vk.mon import probes
@@ -153,6 +154,20 @@ def main(argv=None):
         for rel, lines in totals.items():
             n = sum(1 for ln in lines if f'{rel}:{ln}' in hit)
             anchored[rel] = f'{n}/{len(lines)}'
+            # statement lines of the anchored regions that no shard executed, as compact ranges (tools/uncovered.py)
+            miss = [ln for ln in lines if f'{rel}:{ln}' not in hit]
+            spans, start, prev = [], None, None
+            for ln in miss:
+                if start is None:
+                    start = prev = ln
+                elif ln <= prev + 2:
+                    prev = ln
+                else:
+                    spans.append(f'{start}-{prev}' if prev != start else str(start))
+                    start = prev = ln
+            if start is not None:
+                spans.append(f'{start}-{prev}' if prev != start else str(start))
+            anchored_missed[rel] = ','.join(spans)
 
     # classify violations
     new = [v for v in merged.violations if v['mechanism'] not in known]
@@ -186,6 +201,7 @@ def main(argv=None):
         'samples': merged.samples,
         'counters': dict(sorted(merged.counters.items())),
         'anchored_lines_hit': anchored,
+        'anchored_lines_not_executed': anchored_missed,
         'known_findings_observed': kf_counts,
         'new_violation_mechanisms': dict((m, c) for m, c in merged.viol_counts.items() if m not in known),
         'inconclusive_cases': merged.inconclusive_count,
